@@ -259,6 +259,8 @@ def rule_text_section_predicate(ctx, R="C14/text-section"):
 
 
 def run(ctx):
+    from rules import preds
+    preds.run(ctx, PROPERTY, ['is_process_memory', 'dynamic-segment', 'dynamic-section'])   # the opaque predicates these rules lean on, against oracle tables
     rule_total(ctx)
     rule_strategy_order(ctx)
     rule_scan_all_notes(ctx)
